@@ -455,6 +455,26 @@ type ClientSpec struct {
 	SNI    string
 	// Sessions: a TLS client session cache (a client that keeps session tickets and offers them again)
 	Sessions tls.ClientSessionCache
+	// HangUpAfterHello: the peer ends its side of the stream (FIN) right after its first flight, the ClientHello
+	HangUpAfterHello bool
+}
+
+// hangupConn half-closes the connection after the first write
+type hangupConn struct {
+	net.Conn
+	once sync.Once
+}
+
+func (h *hangupConn) Write(b []byte) (int, error) {
+	n, err := h.Conn.Write(b)
+	h.once.Do(func() {
+		if cw, ok := h.Conn.(interface{ CloseWrite() error }); ok {
+			_ = cw.CloseWrite()
+		} else {
+			_ = h.Conn.Close()
+		}
+	})
+	return n, err
 }
 
 // ClientResult is the client's view of one connection
@@ -492,6 +512,9 @@ func (cs ClientSpec) Connect(addr string) *ClientResult {
 	if len(cs.Chain) > 0 {
 		cert := &tls.Certificate{Certificate: cs.Chain, PrivateKey: cs.Signer}
 		cfg.GetClientCertificate = func(*tls.CertificateRequestInfo) (*tls.Certificate, error) { return cert, nil }
+	}
+	if cs.HangUpAfterHello {
+		raw = &hangupConn{Conn: raw}
 	}
 	c := tls.Client(raw, cfg)
 	ctx, cancel := context.WithTimeout(context.Background(), waitWatchdog)
